@@ -3,6 +3,7 @@ from __future__ import annotations
 
 import core
 import gen
+import srctie_c17
 from wire import Toks, ehitem, ehprogs, ehval, elist, p_hitem, p_hprog, p_hval, p_list
 
 PID = "C17"
@@ -35,7 +36,7 @@ MANIFEST = dict(
     technique="Lean 4 proof by mutual structural induction over block programs with exceptions + differential correspondence "
               "check (exhaustive small programs, random deep programs) + executable statement evaluated on the real run",
 )
-PROP_FILES = ["HtmlVerif/Props/C17.lean"]
+PROP_FILES = ["HtmlVerif/Props/C17.lean", "HtmlVerif/Props/SrcC17.lean"]
 
 TXT = ("d", ("text", "a"))
 NONE = ("d", ("none",))
@@ -446,6 +447,8 @@ def run(tier: str) -> int:
         ck.add(l, im, nontrivial=nt, tag=tag)
         if im.startswith("raised"):
             ck.tagc("outcome-" + im.split(" ", 2)[1])
+    ck.add_src(["Tag_appendC17"])        # source tie (DESIGN §14): the regenerated functions against the real ones
+    srctie_c17.add_src_c17(ck, ["handler_wrapperC17", "Tag_enterC17", "Tag_exitC17", "wrap_displayhook_handlerC17", "applyCallableC17"])
     ck.correspond(holds=True)
     return ck.finish(shrink=_shrinker(ck))
 
